@@ -61,12 +61,14 @@ def run_check(d, prop, tier):
 
 
 def apply_mutant(d, m):
-    p = os.path.join(d, m["file"])
-    s = open(p).read()
-    if s.count(m["old"]) < 1:
-        raise SystemExit("mutant %s: pattern not found in %s" % (m["id"], m["file"]))
-    s = s.replace(m["old"], m["new"], m.get("count", 1))
-    open(p, "w").write(s)
+    edits = m.get("edits") or [{"file": m["file"], "old": m["old"], "new": m["new"], "count": m.get("count", 1)}]
+    for e in edits:
+        p = os.path.join(d, e["file"])
+        s = open(p).read()
+        if s.count(e["old"]) < 1:
+            raise SystemExit("mutant %s: pattern not found in %s" % (m["id"], e["file"]))
+        s = s.replace(e["old"], e["new"], e.get("count", 1))
+        open(p, "w").write(s)
 
 
 def main():
